@@ -243,6 +243,23 @@ def denied (f : Flags) (s : St) : IoOp → Option Err
   | .system _ _ => if f.noExec then some .noExecSystem else none
   | _ => none
 
+/-! ### standard input is not a file; what is decided about a file depends on the flags and the open function's answer only -/
+
+/-- an operand list that names standard input only: every entry is "" (skipped) or "-" -/
+def onlyStdin (l : List Bytes) : Bool := l.all (fun a => a == [] || a == dash)
+
+/-- what `getline < n`, `print > n`, `print >> n` do with a name that is not yet a stream, as a function of the flags alone:
+use a standard stream, refuse, or ask the configured open function -/
+inductive Decision | stdin | stdout | stderr | refuse (e : Err) | viaOpenFile (m : Mode)
+deriving DecidableEq, Repr
+
+def readDecision (f : Flags) (n : Bytes) : Decision :=
+  if n = dash then .stdin else if f.noReads then .refuse .noFileReads else .viaOpenFile .rd
+
+def writeDecision (f : Flags) (n : Bytes) (m : Mode) : Decision :=
+  if n = dash then .stdout else if f.noWrites then .refuse .noFileWrites
+  else if n = devStderr then .stderr else if n = devStdout then .stdout else .viaOpenFile m
+
 /-! ### a reused Interpreter
 
 `setExecuteConfig` copies the three flags and the open function from the Config of EACH `Execute` call, and `closeAll`
